@@ -127,40 +127,47 @@ def eventsPathOk (evs : List String) : Option String :=
 
 structure ProbeSt where
   state : CState := .closed
-  evCount : Nat := 0                         -- Open→Half-Open notifications so far
-  th : List (Nat × Bool × Nat) := []         -- thread ↦ (breaker was Closed at some moment of the running operation, evCount at its start)
-  passes : List (Nat × Bool × List Nat) := []   -- admitted requests: (thread, Closed seen, Half-Open notifications inside the request)
+  holder : Option Nat := none                -- who is inside the breaker's state mutex
+  closedRead : List Nat := []                -- threads that, in their running operation, entered the state mutex while it said Closed
+  probeBy : List Nat := []                   -- threads that, in their running operation, performed Open→Half-Open
+  bad : Option String := none
 
-/-- C16: every admitted request must be justified by the breaker being Closed at some moment of the request, or by an
-Open→Half-Open notification inside the request that no other admitted request claims -/
+/-- C16: every admitted request must be justified: inside the request its thread either entered the breaker's state mutex
+while the state was Closed (`try_pass` read Closed), or itself performed the Open→Half-Open transition (it is the probe).
+Notifications are emitted inside the state mutex, so the thread inside it at that moment is the one that transitioned. -/
 def specProbes (st : St) (v : Verdict) (i : Nat) : Verdict :=
   let step (p : ProbeSt) (e : List String) : ProbeSt :=
     let who := e.getD 0 ""
     let kind := e.getD 1 ""
     let body := e.getD 2 ""
-    if kind != "note" then p
-    else if body.startsWith "ev=" then
-      match parseEvent (body.drop 3).toString with
-      | some (_, some to, _) =>
-        { p with state := to, evCount := if to == .halfOpen then p.evCount + 1 else p.evCount,
-                 th := if to == .closed then p.th.map (fun x => (x.1, true, x.2.2)) else p.th }
-      | _ => p
-    else
-      match isThreadOp who with
-      | some t =>
-        let cur := ((p.th.find? (fun x => x.1 == t)).map (·.2)).getD (true, 0)
-        let evSeen := (List.range (p.evCount - cur.2)).map (· + cur.2)
-        let passes := if body.startsWith "build=pass" then (t, cur.1, evSeen) :: p.passes else p.passes
-        { p with passes := passes, th := (t, p.state == .closed, p.evCount) :: p.th.filter (fun x => x.1 != t) }
-      | none => p
-  let fin := st.log.foldl step {}
-  let needy := (fin.passes.filter (fun d => !d.2.1)).reverse
-  let (_, bad) := needy.foldl (fun (acc : List Nat × Option String) d =>
-      match d.2.2.find? (fun e => !acc.1.contains e) with
-      | some e => (e :: acc.1, acc.2)
-      | none => (acc.1, if acc.2.isSome then acc.2 else
-          some s!"thread t{d.1} was admitted although the breaker was never Closed during its request and no Open→Half-Open transition was left for it (Half-Open phases begun during the request: {d.2.2.length}, each already the probe of another admitted request)")) ([], none)
-  match bad with
+    let isState := (body.splitOn ":State#").length > 1
+    match isThreadOp who with
+    | none => p
+    | some t =>
+      if kind == "got" && isState then
+        { p with holder := some t, closedRead := if p.state == .closed && !p.closedRead.contains t then t :: p.closedRead else p.closedRead }
+      else if kind == "rel" && isState then { p with holder := none }
+      else if kind == "note" && body.startsWith "ev=" then
+        match parseEvent (body.drop 3).toString with
+        | some (_, some to, _) =>
+          let probeBy := match to, p.holder with
+            | .halfOpen, some h => h :: p.probeBy
+            | _, _ => p.probeBy
+          { p with state := to, probeBy := probeBy }
+        | _ => p
+      else if kind == "note" then
+        let justified := p.closedRead.contains t || p.probeBy.contains t
+        let bad := if body.startsWith "build=pass" && !justified && p.bad.isNone then
+            some s!"thread t{t} was admitted although, during its request, it neither found the breaker Closed nor performed the Open→Half-Open transition itself (state at the end of the request: {repr p.state})"
+          else p.bad
+        { p with bad := bad, closedRead := p.closedRead.filter (· != t), probeBy := p.probeBy.filter (· != t) }
+      else p
+  -- notifications from the setup (before the schedule started) are in the listener log only: they fix the initial state
+  let inRun := (st.log.filter (fun e => e.getD 1 "" == "note" && (e.getD 2 "").startsWith "ev=")).length
+  let before := (st.events.take (st.events.length - inRun)).filterMap parseEvent
+  let init : CState := ((before.filterMap (fun e => e.2.1)).getLast?).getD .closed
+  let fin := st.log.foldl step { state := init }
+  match fin.bad with
   | some m => v.setViol s!"step={i} {m}"
   | none => v
 
